@@ -512,3 +512,79 @@ Definition hist_by_num_f (x : list float) (wsort : list Z) (k : Z) (mergelast : 
   let '(rev, low, high) := fold_left (remap_step x wsort) (zseq 0 (Z.to_nat nbin)) (rev0, z, z) in
   if negb (last hist 0 =? k) && mergelast then merge_last hist rev low high
   else (hist, rev, low, high).
+
+(* ------------------------------------------------------------------ control skeleton (tie) *)
+(* The decisions of Binner.__init__/dohist/_hist_by_binsize_or_nbin/_do_hist/_merge_last/calc_stats and of
+   histogram() that the model's functions embody, as ONE record.  harness/props/c14_translate.py
+   translates the same record out of esutil/stat/util.py on every run (python ast, fail-closed) and
+   Exec.skel_eqb compares it with [model_skel]; Proofs.skeleton_is_the_model shows that the model's
+   functions are the ones this record determines. *)
+Inductive kwname := KwNperbin | KwBinsize | KwNbin.
+
+Inductive fexpr :=
+| FDmin | FBs | FIdx | FLow            (* self.dmin, self["binsize"], arange(nhist)[i], low[i] *)
+| FConst (c : float)
+| FAdd (a b : fexpr) | FMul (a b : fexpr).
+
+Fixpoint feval (dmin bs idx low : float) (e : fexpr) : float :=
+  match e with
+  | FDmin => dmin | FBs => bs | FIdx => idx | FLow => low
+  | FConst c => c
+  | FAdd a b => PrimFloat.add (feval dmin bs idx low a) (feval dmin bs idx low b)
+  | FMul a b => PrimFloat.mul (feval dmin bs idx low a) (feval dmin bs idx low b)
+  end.
+
+Record skel := mkSkel {
+  sk_clear_first : bool;             (* dohist starts with self.clear() *)
+  sk_y_forces_rev : bool;            (* dohist: if self.y is not None: rev = True *)
+  sk_w_forces_rev : bool;            (* _do_hist: if self.weights is not None: dorev = True *)
+  sk_limits_first : bool;            (* _get_minmax_and_indices is called before the keywords are looked at *)
+  sk_binner_order : list kwname;     (* the order in which dohist / _hist_by_binsize_or_nbin test the keywords *)
+  sk_none_error : err;               (* no keyword: raise ValueError *)
+  sk_hist_default_bs : float;        (* histogram(binsize=1.0) *)
+  sk_hist_nbin_over_bs : bool;       (* histogram: if nbin is not None: binsize = None *)
+  sk_more_forces_rev : bool;         (* histogram: if more: rev = True *)
+  sk_edges : fexpr * fexpr * fexpr;  (* low, high, center of calc_stats *)
+  sk_num_skips_edges : bool;         (* calc_stats: "nperbin" in self -> no edges *)
+  sk_stats_iff_rev : bool;           (* calc_stats: statistics exactly when "rev" in self *)
+  sk_no_hist_error : err;            (* calc_stats before dohist *)
+  sk_single_size : Z;                (* the special case w.size == 1 *)
+  sk_merge_min : Z;                  (* _merge_last: if nbin < 2: return *)
+  sk_merge_if_last_differs : bool;   (* _hist_by_num: if hist[-1] != nperbin and mergelast *)
+  sk_len_errors : err * err;         (* y / weights of another length *)
+  sk_empty_sel_error : err }.        (* no data within min/max *)
+
+Definition model_skel : skel :=
+  mkSkel true true true true [KwNperbin; KwBinsize; KwNbin] EValue 1%float true true
+         (FAdd FDmin (FMul FIdx FBs), FAdd FLow FBs, FAdd FLow (FMul (FConst 0x1p-1%float) FBs))
+         true true EValue 1 2 true (EValue, EValue) EValue.
+
+(* the functions a skeleton determines *)
+Fixpoint first_given (order : list kwname) (bs : option float) (nb k : option Z) : choice :=
+  match order with
+  | [] => CNone
+  | KwNperbin :: t => match k with Some v => CNum v | None => first_given t bs nb k end
+  | KwBinsize :: t => match bs with Some v => CMode (ByBinsize v) | None => first_given t bs nb k end
+  | KwNbin :: t => match nb with Some v => CMode (ByNbin v) | None => first_given t bs nb k end
+  end.
+
+Definition resolve_sk (sk : skel) (via_histogram : bool) (bs : option float) (nb k : option Z) : choice :=
+  if via_histogram then
+    let bs0 := match bs with Some b => b | None => sk_hist_default_bs sk end in
+    let bs' := match nb with
+               | Some _ => if sk_hist_nbin_over_bs sk then None else Some bs0
+               | None => Some bs0
+               end in
+    first_given (sk_binner_order sk) bs' nb k
+  else first_given (sk_binner_order sk) bs nb k.
+
+Definition dorev_sk (sk : skel) (c : cols) (rv : bool) : bool :=
+  rv || (sk_y_forces_rev sk && match c_y c with Some _ => true | None => false end)
+     || (sk_w_forces_rev sk && match c_w c with Some _ => true | None => false end).
+
+Definition edges_sk (sk : skel) (dmin bsize : float) (nhist : Z) : list (float * float * float) :=
+  let '(el, eh, ec) := sk_edges sk in
+  map (fun i => let idx := float_of_Z i in
+                let lo := feval dmin bsize idx 0%float el in
+                (lo, feval dmin bsize idx lo eh, feval dmin bsize idx lo ec))
+      (zseq 0 (Z.to_nat nhist)).
